@@ -134,8 +134,15 @@ func (st *simStore) Store(buckets ...[]byte) storage.Interface {
 	return &simStore{s: st.s, inner: st.inner.Store(buckets...).(*storage.Bolt)}
 }
 
+// ErrDeadWorld is returned to code that is still unwinding after its world ended (crash or end of run):
+// durable state can no longer be touched.
+var ErrDeadWorld = errors.New("simulated process is gone")
+
 func (st *simStore) View(f func(storage.ReadOnlyTx) error) error {
 	s := st.s
+	if !simrt.Active() {
+		return ErrDeadWorld
+	}
 	_ = s
 	simrt.Yield()
 	var err error
@@ -147,6 +154,9 @@ func (st *simStore) View(f func(storage.ReadOnlyTx) error) error {
 
 func (st *simStore) Update(f func(storage.Tx) error) error {
 	s := st.s
+	if !simrt.Active() {
+		return ErrDeadWorld
+	}
 	simrt.Yield()
 	s.lock.Lock()
 	defer s.lock.Unlock()
